@@ -44,8 +44,7 @@ def judge_derive(case, obs):
         return v.bad("C03/%s/rejected" % case["x"]["cls"], "derivation failed (%s: %s) for path %s" % (o.get("stage"), o.get("err"), req["path"]))
     if o["ok"]["secret"] != "%064x" % want:
         v.bad("C03/%s/key-mismatch" % case["x"]["cls"], "derived key differs from BIP-32 reference for path %s (seed %d bytes)" % (req["path"], len(seed)))
-    if o["ok"]["address"] != eth.address_of_key(want):
-        v.bad("C03/%s/address-mismatch" % case["x"]["cls"], "address of the derived key differs from the reference")
+    # (the address of the derived key is C04's subject and is judged there, not here)
     d = len(comps)
     # rare shapes of the intermediate nodes (each must be used as the full 32 bytes it is): measured on the reference trace
     for lvl, (k, c) in enumerate(trace):
